@@ -582,6 +582,17 @@ def inline_helper(toks, helper, log, where):
             p = _prev_code(toks, k - 1)
             if j < n and toks[j].text == "(" and not (p >= 0 and toks[p].kind == "ident" and toks[p].text == "fn"):
                 cl = match_close(toks, j)
+                if helper.get("has_return"):
+                    # only a call in tail position of the calling function, with the same return type
+                    last_code = max(q for q, x in enumerate(toks) if _is_code(x))
+                    sig_end = next(q for q, x in enumerate(toks) if x.kind == "punct" and x.text == "{")
+                    caller_sig = re.sub(r"\s+", " ", untok([x for x in toks[:sig_end] if _is_code(x)]))
+                    mret = re.search(r"\)\s*(->\s*.*)$", caller_sig)
+                    caller_ret = mret.group(1).strip() if mret else ""
+                    caller_ret = re.sub(r"^->\s*\(\s*\w+\s*:\s*(.*)\)\s*$", r"-> \1", caller_ret)   # `-> (r: T)` as written by name_result
+                    # (equality of the two return types is left to the type checker: the unit's subs may have renamed them)
+                    if _next_code(toks, cl + 1) != last_code:
+                        raise Unsupported("%s: helper %s contains return/? and is not called in tail position" % (where, name))
                 args = split_args(toks[j + 1:cl])
                 recv = None
                 start = k
@@ -679,9 +690,10 @@ def make_helper(item, origin):
             raise Unsupported("helper %s has a where clause" % item.name)
         b += 1
     body = toks[b:match_close(toks, b) + 1]
-    for x in body:
-        if (x.kind == "ident" and x.text == "return") or (x.kind == "punct" and x.text == "?"):
-            raise Unsupported("helper %s contains return/?" % item.name)
+    # `return` / `?` inside the helper: inlining is still meaning-preserving where the call is the tail expression of the
+    # calling function and both have the same return type (a return from the inlined text is then a return from the caller)
+    has_return = any((x.kind == "ident" and x.text == "return") or (x.kind == "punct" and x.text == "?") for x in body)
+    ret_type = re.sub(r"\s+", " ", untok([x for x in toks[cl + 1:b] if _is_code(x)])).strip()
     if self_kind == "mut":
         code = [x for x in body if _is_code(x)]
         for i_, x in enumerate(code):
@@ -689,7 +701,8 @@ def make_helper(item, origin):
                 raise Unsupported("helper %s uses `self` other than as `self.<field or method>`" % item.name)
     body = r1_strip_attrs_docs(body, [], origin)
     body = r3_bytes(body, [], origin)
-    return {"name": item.name, "params": params, "self_kind": self_kind, "body_toks": body, "origin": origin}
+    return {"name": item.name, "params": params, "self_kind": self_kind, "body_toks": body, "origin": origin,
+            "has_return": has_return, "ret_type": ret_type}
 
 
 def cut_statement(toks, pat, tag, log, where):
